@@ -3,6 +3,17 @@
 From Apd Require Import Generated.Consts Model.Base Model.NumDigits Model.Decimal.
 Open Scope Z_scope.
 
+Section WithEst.
+Variable est : Z -> Z.
+Local Notation num_digits := (num_digits_with est).
+Local Notation dcmp := (dcmp est).
+Local Notation modf := (modf est).
+Local Notation set_exponent := (set_exponent est).
+Local Notation round_with := (round_with est).
+Local Notation ctx_round := (ctx_round est).
+Local Notation round_add_one := (round_add_one est).
+Local Notation dreduce := (dreduce est).
+
 (* what a Context method hands back: the destination (None = not written), the Condition, the error *)
 Record result := mkResult { rdec : option dec; rcond : cond; rerr : err }.
 
@@ -262,3 +273,5 @@ Definition ctx_cmp (c : ctx) (x y : dec) : res result :=
   if should_set_as_nan x (Some y) then ret (set_as_nan c x (Some y)) else
   do v <- dcmp x y;
   ret (mkResult (Some (mkDec Finite (v <? 0) 0 (Z.abs v))) c0 ENone).
+
+End WithEst.
